@@ -20,6 +20,7 @@
 (*    TaskBegin / TaskEnd(ok|err) / HandlerDone / TaskPanic    :63-69,:462 *)
 (*    Respawn     Sentinel::drop: incr_panic + spawn           :384-395   *)
 (*    Exit / ThreadEnd  leave run(), cancel sentinel, release  :463-471   *)
+(*  Delegate    flush()/stats() run the wrapped sink on the caller thread   *)
 (*  sampler: queued() = two separate loads and a guarded subtraction :337  *)
 (*                                                                         *)
 (* StopPolicy re-introduces the two repaired defects in the MODEL:         *)
@@ -30,6 +31,8 @@
 (*   "fixed"    the code as it is now                                      *)
 (*   "blocking-emit"  emit waits for room (send instead of try_send): must *)
 (*              be refuted by C10_NeverBlocked                             *)
+(*   "flush-in-emit"  a refused emit flushes the wrapped sink on the       *)
+(*              caller's thread: must be refuted by the monitor (C10)      *)
 (***************************************************************************)
 EXTENDS Naturals, Integers, Sequences, FiniteSets, TLC, SequencesExt, Json
 
@@ -100,8 +103,10 @@ EmitTry(h) ==
      THEN /\ chan' = Append(chan, pm[h]) /\ accepted' = Append(accepted, pm[h]) /\ pok' = [pok EXCEPT ![h] = TRUE]
      ELSE /\ UNCHANGED <<chan, accepted>> /\ pok' = [pok EXCEPT ![h] = FALSE]
   /\ ppc' = [ppc EXCEPT ![h] = "count"]
+  \* model mutant: a refused emit flushes the wrapped sink on the caller's thread "to make room"
+  /\ IF StopPolicy = "flush-in-emit" /\ ~CanSend THEN M(P!QWOther(mon, h)) ELSE UNCHANGED mon
   /\ UNCHANGED <<handles, nextH, nextM, pm, wk, cur, wgen, dpc, dh, helper, submitted, drained, panics,
-                 spc, sS, sD, wrap, delivered, hlog, released, mon>>
+                 spc, sS, sD, wrap, delivered, hlog, released>>
   /\ H([a |-> "EmitTry", h |-> h, m |-> pm[h], ok |-> CanSend])
 
 EmitCount(h) ==
@@ -119,6 +124,16 @@ EmitRet(h) ==
   /\ UNCHANGED <<handles, nextH, nextM, pok, chan, wk, cur, wgen, dpc, dh, helper, submitted, drained, panics,
                  spc, sS, sD, wrap, accepted, delivered, hlog, released>>
   /\ H([a |-> "EmitRet", h |-> h, m |-> pm[h], ok |-> pok[h]])
+
+\* flush() / stats() of the queuing sink delegate to the wrapped sink on the CALLER's own thread (queuing.rs: MetricSink::flush,
+\* MetricSink::stats): legitimate, and never part of an emit (C10) - the monitor tells the two apart by the thread
+Delegate(h) ==
+  /\ h \in handles /\ ppc[h] = "idle" /\ ~(dpc # "none" /\ dh = h) /\ ~released
+  /\ (Hist => Len(hist) % 5 = 3)          \* behaviour generation only: thin out (the step changes no state)
+  /\ M(P!QWOther(mon, h))
+  /\ UNCHANGED <<handles, nextH, nextM, ppc, pm, pok, chan, wk, cur, wgen, dpc, dh, helper, submitted, drained, panics,
+                 spc, sS, sD, wrap, accepted, delivered, hlog, released>>
+  /\ H([a |-> "Delegate", h |-> h])
 
 (* ------------------------------ handles ----------------------------------- *)
 Clone(h) ==
@@ -271,7 +286,7 @@ Worker == Recv \/ CountDrained \/ TaskBegin \/ (\E o \in Outcomes : TaskEnd(o)) 
           \/ Respawn \/ Exit \/ ThreadEnd \/ Release
 Dropper == StopTry \/ SpawnHelper \/ DropRet
 Next == \/ \E h \in Handles : EmitStart(h) \/ EmitTry(h) \/ EmitCount(h) \/ EmitRet(h)
-                              \/ Clone(h) \/ DropQuiet(h) \/ DropStart(h)
+                              \/ Clone(h) \/ DropQuiet(h) \/ DropStart(h) \/ Delegate(h)
         \/ Dropper \/ HelperSend \/ Worker
         \/ SampleS \/ SampleD \/ SampleResult
 
